@@ -290,7 +290,39 @@ func tgStruct(r *rand.Rand, depth int, o tgOpts) reflect.Type {
 }
 
 var tgStrings = []string{"", "a", "hello world", "<script>&amp;</script>", "quote\"back\\slash/", "tab\tnl\ncr\rbs\bff\f", "\x00\x01\x1f\x7f", "é€😀", "  ", "\xff\xfe bad utf8 \xc3", "𝄞",
-	strings.Repeat("long ", 40), "0123456789", "true", "null", " "}
+	strings.Repeat("long ", 40), "0123456789", "true", "null", " ",
+	// every plane and the edges of the UTF-8 encoding; surrogates written as three bytes, overlong forms, beyond U+10FFFF
+	"\U000D0000", "flag \U000E0067\U000E0062 tag", "\U000F0000\U000FFFFD", "\U0010FFFF", "\U00010000", "\uffff\ud7ff\ue000", "\xed\xa0\x80", "a\xed\xbf\xbfb",
+	"12345678\xed\xb0\x80", "\xf4\x90\x80\x80", "\xf0\x8f\xbf\xbf", "\xe0\x9f\xbf", "\xc0\xaf", "\xf3\x80\x80", "abcdefg\xf3\xa0\x81\xa7", "\xf8\x88\x80\x80\x80"}
+
+// tgRandString draws a string from byte classes that matter to the escape tables, the UTF-8 decoder and the 8-byte
+// scan: any length up to 40, any alignment
+func tgRandString(r *rand.Rand) string {
+	n := r.Intn(41)
+	var b []byte
+	for len(b) < n {
+		switch r.Intn(16) {
+		case 0:
+			b = append(b, []byte{'"', '\\', '<', '>', '&', '/', 0x7f, 0, 0x1f, '\n'}[r.Intn(10)])
+		case 1:
+			b = append(b, string(rune(0x80+r.Intn(0x780)))...)
+		case 2:
+			b = append(b, string([]rune{0x800, 0xd7ff, 0xe000, 0xfffd, 0xffff, 0x2028, 0x2029, 0x2027, 0x202a}[r.Intn(9)])...)
+		case 3:
+			b = append(b, string(rune(0x10000+r.Intn(0x100000)))...)
+		case 4:
+			b = append(b, string([]rune{0x10000, 0x3ffff, 0x40000, 0xcffff, 0xd0000, 0xe0061, 0xfffff, 0x100000, 0x10ffff}[r.Intn(9)])...)
+		case 5: // ill-formed: a lead byte and whatever follows
+			b = append(b, []byte{0xc0, 0xc1, 0xc2, 0xdf, 0xe0, 0xed, 0xef, 0xf0, 0xf3, 0xf4, 0xf5, 0xff, 0x80, 0xbf}[r.Intn(14)])
+			for k := r.Intn(4); k > 0; k-- {
+				b = append(b, []byte{0x80, 0x8f, 0x90, 0x9f, 0xa0, 0xbf}[r.Intn(6)])
+			}
+		default:
+			b = append(b, byte('a'+r.Intn(26)))
+		}
+	}
+	return string(b)
+}
 
 var tgFloats = []float64{0, math.Copysign(0, -1), 1, -1, 0.1, 1.5, 1e20, 1e21, 1e-6, 1e-7, 123456789.125, math.MaxFloat64, math.SmallestNonzeroFloat64, math.MaxFloat32, 3.4028235e38,
 	1.401298464324817e-45, 0.000001, 100000000000000000000, 1.7976931348623157e308, 5e-324, 2.2250738585072014e-308, 9007199254740993, 0.30000000000000004, 1e23}
@@ -363,7 +395,11 @@ func tgValue(r *rand.Rand, v reflect.Value, depth int, nilRate int, special bool
 		}
 		v.SetFloat(f)
 	case reflect.String:
-		v.SetString(tgStrings[r.Intn(len(tgStrings))])
+		if r.Intn(4) == 0 {
+			v.SetString(tgRandString(r))
+		} else {
+			v.SetString(tgStrings[r.Intn(len(tgStrings))])
+		}
 	case reflect.Slice:
 		if r.Intn(100) < nilRate {
 			return
